@@ -14,6 +14,7 @@
 (*      Determinism   all loads of the case gave one and the same outcome    *)
 (*      Spec          no error expected => the load succeeded with exactly   *)
 (*                    the tree Load computes                                *)
+(*      LoaderSurvives no load crashed the loader                            *)
 (*      AllOrNothing  error expected (a template error is reached in an     *)
 (*                    enabled subtree) => the load failed and gave no tree   *)
 (*  - strict conformance: every outcome equals Load(T, uv, dev) for the      *)
@@ -71,13 +72,18 @@ TCase ==
          ExplAoN(oi) == IF Conforms(outs[oi], withE) \/ Conforms(outs[oi], withB) THEN "enabled-error-masked"
                         ELSE IF SwallowedInIterator(oi, withB) THEN "iter-shared-err"
                         ELSE "unexplained"
+         \* a crash of the loader (a panic, possibly in one of its child goroutines, takes the whole process down; the
+         \* harness records which load was running) is never acceptable, whatever the template
          PerOut(oi) ==
+           IF outs[oi].crashed
+             THEN Soft("LoaderSurvives", FALSE, <<oi, "loader crashed", Len(RunsOf(oi)), Brief(RunsOf(oi))>>)
+             ELSE
              Soft("AllOrNothing", ideal.err => (~outs[oi].ok /\ outs[oi].tree = <<>>),
                   <<oi, ExplAoN(oi), Len(RunsOf(oi)), Brief(RunsOf(oi))>>)
            + Soft("Spec", ~ideal.err => Conforms(outs[oi], ideal),
                   <<oi, ExplSpec(oi), Len(RunsOf(oi)), Brief(RunsOf(oi))>>)
-         nconf == Cardinality({oi \in 1..Len(outs) : Conforms(outs[oi], ideal)})
-         StrictOk(oi) == Conforms(outs[oi], asis) \/ (DevShared /\ SwallowedInIterator(oi, asis))
+         nconf == Cardinality({oi \in 1..Len(outs) : ~outs[oi].crashed /\ Conforms(outs[oi], ideal)})
+         StrictOk(oi) == ~outs[oi].crashed /\ (Conforms(outs[oi], asis) \/ (DevShared /\ SwallowedInIterator(oi, asis)))
      IN /\ IF \A oi \in 1..Len(outs) : StrictOk(oi) THEN TRUE
            ELSE PrintT(<<"DRIFT", Line.scn, l, "Case">>)
         /\ nviol' = nviol + SumSeq([oi \in 1..Len(outs) |-> PerOut(oi)])
